@@ -5,4 +5,4 @@ Require Extraction.
 Require Import ExtrOcamlBasic.
 From IronCalc Require Import Base.Prelude Codec.RefA1 Syntax.Token Syntax.Ast Syntax.Printer Syntax.Parser Syntax.Shape Syntax.Localize.
 Extraction Language OCaml.
-Extraction "model_c10.ml" Localize.names_of Localize.m_display Localize.fn_ok Localize.names_ok Printer.print Parser.parse Shape.glue Shape.no_bad.
+Extraction "model_c10.ml" Localize.names_of Localize.m_display Localize.fn_ok Localize.names_ok Printer.print Parser.parse Shape.glue Shape.no_bad Localize.cf_rule_input_to_internal Localize.cf_slots.
